@@ -71,22 +71,43 @@ dump() {
 '''
 
 
+BARE_CONTEXTS = {
+    # the stage IS the assignment (no braces): a simple command with no command word still runs in the stage's own subshell
+    "bare_pipe_first": "{M} | cat",
+    "bare_pipe_mid": "echo | {M} | cat",
+    "bare_pipe_two": "{M} | {M} | true",
+    "bare_background": "{M} & wait",
+}
+BARE_MUTS = ["keepme=changed", "keeparr[1]=z", "keepme+=x", "newvar=1", "keeparr+=(q)", "IFS=:", "OPTIND=5", "newvar=$(echo sub)"]
+
+
 def script(mutators, ctx, shell):
+    # `ctx@sub` / `ctx@pipe`: the whole before / subshell / after sequence itself runs inside an enclosing subshell or pipeline
+    # stage - the "parent" whose state must not change is then a subshell too (a nested `( )` must still be its own shell)
+    ctx, _, outer = ctx.partition("@")
     m = "; ".join(mutators)
-    # the subshell ends with an explicit status so that what flows back does not depend on how the dump helper fares
-    # under the mutated state (PATH emptied, noclobber, ...)
-    inside = m + '; dump inside "$@"; exit 7'
-    # the inside dump must run before `exit`: put it before an exit mutator
-    if any(x.startswith("exit") for x in mutators):
-        idx = next(i for i, x in enumerate(mutators) if x.startswith("exit"))
-        inside = "; ".join(mutators[:idx] + ['dump inside "$@"'] + mutators[idx:]) + "; exit 7"
-    body = CONTEXTS[ctx].replace("{M}", inside)
-    pre = PRE_FOR_CONTEXT.get(ctx, "")
-    if ctx == "func_subshell":
-        # the function is part of the parent's state: define it before the first dump
-        pre, body = body.split("; fs")[0] + "\n", "fs"
-    s = PRELUDE + pre + 'dump before "$@"\n' + body + '\necho "@st $?"\n' + 'dump after "$@"\ngetopts abc gko -abc; echo "@gk $gko $OPTIND"\necho "@end"\n'
-    return s
+    if ctx in BARE_CONTEXTS:
+        body = BARE_CONTEXTS[ctx].replace("{M}", mutators[0])
+        pre = ""
+    else:
+        # the subshell ends with an explicit status so that what flows back does not depend on how the dump helper fares
+        # under the mutated state (PATH emptied, noclobber, ...)
+        inside = m + '; dump inside "$@"; exit 7'
+        # the inside dump must run before `exit`: put it before an exit mutator
+        if any(x.startswith("exit") for x in mutators):
+            idx = next(i for i, x in enumerate(mutators) if x.startswith("exit"))
+            inside = "; ".join(mutators[:idx] + ['dump inside "$@"'] + mutators[idx:]) + "; exit 7"
+        body = CONTEXTS[ctx].replace("{M}", inside)
+        pre = PRE_FOR_CONTEXT.get(ctx, "")
+        if ctx == "func_subshell":
+            # the function is part of the parent's state: define it before the first dump
+            pre, body = body.split("; fs")[0] + "\n", "fs"
+    core_part = 'dump before "$@"\n' + body + '\necho "@st $?"\n' + 'dump after "$@"\ngetopts abc gko -abc; echo "@gk $gko $OPTIND"\n'
+    if outer == "sub":
+        core_part = "(\n" + core_part + ")\n"
+    elif outer == "pipe":
+        core_part = "{\n" + core_part + "} | cat\n"
+    return PRELUDE + pre + core_part + 'echo "@end"\n'
 
 
 def mask_text(t):
@@ -281,9 +302,15 @@ def run(run):
                        "the same harness is run under bash on a sample as oracle self-test (bash must show no difference)",
                        "umask / ulimit are process-wide in brush (open findings C12-F1/F2): attributed only when the difference is exactly that value"]
     cases = [([m], c) for m in MUTATORS for c in CONTEXTS]
+    nested = [([m], c + "@" + o) for m in MUTATORS for c in ("subshell", "cmdsubst", "pipe_first", "background", "func_subshell", "nested") for o in ("sub", "pipe")
+              if not m.startswith(("exec >", "exec 2>", "cd sub"))]
+    rng.shuffle(nested)
     if quick:
         rng.shuffle(cases)
         cases = cases[: int(420 * scale)]
+        nested = nested[: int(90 * scale)]
+    cases += nested
+    cases += [([m], c) for m in BARE_MUTS for c in BARE_CONTEXTS]
     nseq = int((150 if quick else 6000) * scale)
     ctxs = list(CONTEXTS)
     for _ in range(nseq):
